@@ -164,18 +164,44 @@ def rule_absorb_tables(ctx):
                         and any(isinstance(y, ast.Name) and y.id == local_usv[1] for y in ast.walk(a_.value)):
                     sqrt_vars.add(a_.targets[0].id)
 
+        # what the function's own U / s / VH are computed from (one level): an arm may spell `s` as its defining expression (np.sqrt(s2))
+        # and the bare factors through the arrays they are made of (dag_numba(V))
+        usv_defs = {nm: [a_.value for a_ in ast.walk(g2.node) if isinstance(a_, ast.Assign) and len(a_.targets) == 1 and isinstance(a_.targets[0], ast.Name) and a_.targets[0].id == nm]
+                    for nm in (local_usv or ())}
+        s_def_dumps = {ast.dump(d_) for d_ in usv_defs.get(local_usv[1], [])} if local_usv else set()
+        # an array is a *bare* source of U / VH only when the factor is a pure conjugation / transposition / copy of it (VH = dag_numba(V));
+        # products such as Us = x @ V are not
+        PURE = {"dag", "dag_numba", "conj", "conjugate", "ascontiguousarray", "transpose", "swapaxes"}
+        source_names = set()
+        for nm in ((local_usv[0], local_usv[2]) if local_usv else ()):
+            for d_ in usv_defs.get(nm, []):
+                if isinstance(d_, ast.Call) and (dotted(d_.func) or "").split(".")[-1] in PURE and d_.args and isinstance(d_.args[0], ast.Name):
+                    source_names.add(d_.args[0].id)
+        s_sources = {y.id for d_ in usv_defs.get(local_usv[1], []) for y in ast.walk(d_) if isinstance(y, ast.Name)} if local_usv else set()
+
         def weight(expr):
             if isinstance(expr, ast.Constant) and expr.value is None:
                 return None
             fnames = {id(c_.func) for c_ in ast.walk(expr) if isinstance(c_, ast.Call)} | {id(a_.value) for a_ in ast.walk(expr) if isinstance(a_, ast.Attribute)}
             names = {y.id for y in ast.walk(expr) if isinstance(y, ast.Name) and id(y) not in fnames}
-            if names - sqrt_vars - set(local_usv):
+            fn_like = {y.id for y in ast.walk(expr) if isinstance(y, ast.Name) and y.id in ("np", "xp")}
+            if names - sqrt_vars - set(local_usv) - source_names - s_sources - fn_like:
                 return "?"  # built from something else (a precomputed product, another spectrum): not judged
-            if names & sqrt_vars:
+
+            def is_s(e_):
+                return (isinstance(e_, ast.Name) and e_.id == local_usv[1]) or ast.dump(e_) in s_def_dumps
+
+            def is_sqrt_call(e_):
+                return isinstance(e_, ast.Call) and ((dotted(e_.func) or "").endswith("sqrt") or (e_.args and const_value(e_.args[0], None) == "sqrt"))
+
+            has_sq = any((isinstance(y, ast.Name) and y.id in sqrt_vars) or (is_sqrt_call(y) and any(is_s(z) for a_ in y.args for z in ast.walk(a_))) for y in ast.walk(expr))
+            if has_sq:
                 return "sq"
-            if local_usv[1] in names:
+            if any(is_s(y) for y in ast.walk(expr)):
                 return "s"
-            if names & {local_usv[0], local_usv[2]}:
+            if names & s_sources:
+                return "?"   # the spectrum's own sources (s2) in a form that is not the definition of s: a weight of unknown power
+            if names & ({local_usv[0], local_usv[2]} | source_names):
                 return "none"
             return "?"
 
@@ -1302,4 +1328,42 @@ def rule_partial_selection(ctx):
                                                                "magnitude ones: the truncation is not the best rank-k approximation for indefinite input",
                               where=f"{m.relpath}:{c.lineno}", operand="which"))
     r.floor(n, 1, "partial hermitian eigen-solves inside split drivers")
+    return r
+
+
+def rule_error_after_clamp(ctx):
+    r = RuleResult(
+        "error-after-clamp",
+        "the truncation funnels report the discarded weight as sqrt(sum(sabs[n:] ** 2)) with n the number of kept values: that n has to be the "
+        "*final* kept rank — no assignment to the rank variable (the bond-cap clamp n = min(n, max_bond)) may follow the computation of the "
+        "error; otherwise the weight removed by the cap is missing from the reported error",
+    )
+    n = 0
+    for fn in ("_trim_and_renorm_svd_result", "_trim_and_renorm_svd_result_numba"):
+        f = ctx.prog.func(DECOMP, fn)
+        if f is None:
+            raise AnalysisError(f"error-after-clamp: {fn} not found")
+        # error computations: an assignment whose value takes a tail slice  <arr>[V:]  (possibly [..., V:])
+        for a in ast.walk(f.node):
+            if not isinstance(a, ast.Assign):
+                continue
+            tails = []
+            for x in ast.walk(a.value):
+                if isinstance(x, ast.Subscript):
+                    sl = x.slice.elts[-1] if isinstance(x.slice, ast.Tuple) and x.slice.elts else x.slice
+                    if isinstance(sl, ast.Slice) and isinstance(sl.lower, ast.Name) and sl.upper is None:
+                        tails.append(sl.lower.id)
+            if not tails or not any((dotted(c.func) or "").split(".")[-1] in ("sqrt", "sum", "norm") or (c.args and const_value(c.args[0], None) in ("sqrt", "sum")) for c in ast.walk(a.value) if isinstance(c, ast.Call)):
+                continue
+            V = tails[0]
+            n += 1
+            later = [b for b in ast.walk(f.node) if isinstance(b, (ast.Assign, ast.AugAssign)) and b.lineno > a.lineno
+                     and any(isinstance(t, ast.Name) and t.id == V for t in (b.targets if isinstance(b, ast.Assign) else [b.target]))]
+            q = f"{fn}[{src_of(a.targets[0])}]"
+            if later:
+                r.bad(Finding("error-after-clamp", fn, f"`{src_of(a)[:60]}` (line {a.lineno}) measures the discarded weight before `{src_of(later[0])[:40]}` (line {later[0].lineno}) changes the kept rank: "
+                                                       "the weight removed by that later step is not reported", where=f"{f.module.relpath}:{a.lineno}", operand=V))
+            else:
+                r.ok(q, sample={"funnel": fn, "error": src_of(a)[:60], "kept rank final": True})
+    r.floor(n, 2, "discarded-weight computations in the truncation funnels")
     return r
